@@ -286,7 +286,8 @@ def relaxStep (n : Nat) (c : Nat → Nat → α) (colSol : Nat → Int) (v : Nat
     else .ok s
 
 /-- `if (up == low) { … }` (`:1448-1483`): the columns of minimal distance are collected in
-`colList[low..up-1]` and searched for an unassigned one -/
+`colList[low..up-1]` and searched for an unassigned one.  (Inside the branch `up` equals `low`: the
+scan `for (k = up; …)` after `up++` is written with `low + 1`.) -/
 def djScan (n : Nat) (colSol : Nat → Int) (s : Dj α) : Res (Dj α) :=
   if s.up = s.low then
     -- last = low; min = d[colList[up++]]
